@@ -162,7 +162,7 @@ func (tx *Transaction) Commit(ctx context.Context, scope *ReferenceScope, expr p
 
 			if !tx.Flags.ExportOptions.StripEndingLineBreak && !(fileInfo.Format == option.FIXED && fileInfo.SingleLine) {
 				verifPoint("tx.commit.eol", fileInfo.Path)
-				if _, err := fp.Write([]byte(tx.Flags.ExportOptions.LineBreak.Value())); err != nil {
+				if _, err := fp.Write([]byte(fileInfo.LineBreak.Value())); err != nil {
 					return NewCommitError(expr, err.Error())
 				}
 			}
@@ -191,7 +191,7 @@ func (tx *Transaction) Commit(ctx context.Context, scope *ReferenceScope, expr p
 
 			if !tx.Flags.ExportOptions.StripEndingLineBreak && !(fileInfo.Format == option.FIXED && fileInfo.SingleLine) {
 				verifPoint("tx.commit.eol", fileInfo.Path)
-				if _, err := fp.Write([]byte(tx.Flags.ExportOptions.LineBreak.Value())); err != nil {
+				if _, err := fp.Write([]byte(fileInfo.LineBreak.Value())); err != nil {
 					return NewCommitError(expr, err.Error())
 				}
 			}
